@@ -327,7 +327,11 @@ func (k *classifier) walk(ns []Node, cx classCtx) {
 						}
 					}
 				}
-				if cx2.visible[p.Name] {
+				selfBound := false
+				for _, lv := range cx2.loopVars {
+					selfBound = selfBound || (p.Name == lv && p.Mode == "bind" && p.Path == lv)
+				}
+				if cx2.visible[p.Name] && !selfBound {
 					k.add("collision:prop-includer")
 				}
 				if fm[p.Name] {
@@ -467,4 +471,27 @@ func Classify(c Case) (nontrivial bool, classes []string) {
 	}
 	sort.Strings(classes)
 	return res.Unspecified == "" && res.Includes > 0 && pair, classes
+}
+
+// Size reports the number of AST nodes (slot templates included) and the deepest nesting.
+func Size(c Case) (nodes, depth int) {
+	var walk func(ns []Node, d int)
+	walk = func(ns []Node, d int) {
+		if len(ns) > 0 && d > depth {
+			depth = d
+		}
+		for i := range ns {
+			nodes++
+			walk(ns[i].Kids, d+1)
+			for _, s := range ns[i].Supply {
+				nodes++
+				walk(s.Kids, d+1)
+			}
+		}
+	}
+	walk(c.Page, 1)
+	for i := range c.Comps {
+		walk(c.Comps[i].Body, 1)
+	}
+	return
 }
